@@ -7,7 +7,8 @@ open Cocls Cocls.Proto Cocls.Pub
 /-- what the harness knows about one subscriber id -/
 structure DSub where
   h : Nat
-  kind : Nat        -- how the pending `next()` (if any) was started: 0 by hand (rdy/sus/res), 1 blocking thread, 2 coroutine
+  kind : Nat        -- how the pending `next()` (if any) was started: 0 by hand (rdy/sus/res), 1 blocking thread, 2 coroutine,
+                    -- 3 a range-for consumer thread (goes on to the next `next()` after every value)
   gone : Bool
   follow : Option Nat := none   -- coroutine: subscriber whose `next()` it awaits as soon as it is resumed
   deriving Inhabited
@@ -72,6 +73,23 @@ def followNext (d : D) (b : Nat) (snap : List Nat := []) : D × (Nat × String) 
     | none => (d, (b, s!"c{b}=bad"))
     | some (d1, txt, _) => (d1, (b, s!"c{b}={txt}"))
 
+/-- the range-for consumer thread: `next()` after `next()` until it parks or the stream ends; every value / the end is
+an event -/
+def rforLoop (d : D) (sid : Nat) : Nat → D × List (Nat × String)
+  | 0 => (d, [])
+  | fuel + 1 =>
+    match d.live sid with
+    | none => (d, [])
+    | some x =>
+      match wholeNextCore d sid x 3 none with
+      | none => (d, [])
+      | some (d1, txt, parked) =>
+        if parked then (d1, [])
+        else if txt.startsWith "eof" then (d1, [(sid, s!"b{sid}={txt}")])
+        else
+          let (d2, evs) := rforLoop d1 sid fuel
+          (d2, (sid, s!"b{sid}={txt}") :: evs)
+
 /-- after a step that released subscribers (in `_regs` order, as the wake-up loop runs): hand-driven ones just see their
 awaiter called; a coroutine goes on to `check_next()` at once and then into its follow-up `next()`; blocked threads
 run concurrently and are joined after the operation (second pass) -/
@@ -104,6 +122,13 @@ def wakeEvents (d : D) (woken : List Nat) (snap : List Nat := []) : D × List (N
           | Res.value v => valStr v
           | _ => "?"
         ({ d with s := s1 }.put sid { x with kind := 0 }, evs ++ [(sid, s!"b{sid}={txt}@{(regOf s1 x.h).pos}")])
+      else if x.kind == 3 then
+        let (s1, r) := step d.s (Op.getValue x.h)
+        let d1 := { d with s := s1 }.put sid { x with kind := 0 }
+        let ev := (sid, s!"b{sid}={match r with | Res.value v => valStr v | _ => "?"}@{(regOf s1 x.h).pos}")
+        match r with
+        | Res.value (some _) => let (d2, more) := rforLoop d1 sid 100000; (d2, evs ++ [ev] ++ more)
+        | _ => (d1, evs ++ [ev])
       else (d, evs)) pass1
 
 def evLine (head : String) (evs : List (Nat × String)) : String :=
@@ -205,6 +230,23 @@ def doLine (d : D) (ws : List String) : D × String :=
   | ["blk", sid] =>
       (match sid.toNat?, sid.toNat?.bind d.live with
       | some n, some x => wholeNext d n x "blk" 1
+      | _, _ => (d, "bad"))
+  | ["blk", sid, _spelling] =>
+      -- bool / not (`operator!`) / it / itpost (generator_iterator): the same model step
+      (match sid.toNat?, sid.toNat?.bind d.live with
+      | some n, some x => wholeNext d n x "blk" 1
+      | _, _ => (d, "bad"))
+  | ["co", sid, _spelling] =>
+      (match sid.toNat?, sid.toNat?.bind d.live with
+      | some n, some x => wholeNext d n x "co" 2
+      | _, _ => (d, "bad"))
+  | ["rfor", sid] =>
+      (match sid.toNat?, sid.toNat?.bind d.live with
+      | some n, some x =>
+          if (regOf d.s x.h).phase != Phase.idle then (d, "bad")
+          else
+            let (d1, evs) := rforLoop d n 100000
+            (d1, evLine s!"rfor {sid}" evs)
       | _, _ => (d, "bad"))
   | ["co", sid] =>
       (match sid.toNat?, sid.toNat?.bind d.live with
